@@ -133,7 +133,18 @@ DevFrames(s) == Cardinality({i \in s..l : T[i].ev = "d2h" /\ T[i].kind \in {"res
 HostAcks(s) == Cardinality({i \in s..l : T[i].ev = "h2d" /\ T[i].kind = "ack"})
 Drained(s) == (Benign(s) /\ dev # "dead") => /\ E.left = 0
                                               /\ (Serial => HostAcks(s) = DevFrames(s))
-\* ---------------------------------------------------------------- the API contract
+\* ---------------------------------------------------------------- composite calls: a report put together from several indexed get-property exchanges
+\* GetProperty(property, index): for the region properties the second word is the region number (internal flash / RAM) or the memory id (external
+\* memories); the device answers for THAT index.  A call that reports "word w of region i" must have it from the device: in this call the device
+\* received GetProperty with exactly <<property, i>> and its unfaulted answer carried w at the position reported (position 0: the status it answered with).
+Answered(s, r) == \E j \in s..l :
+                 /\ T[j].ev = "d2h" /\ T[j].kind = "resp" /\ T[j].fault = "none"
+                 /\ IF r.pos = 0 THEN T[j].devStatus = Val(r.val)
+                    ELSE T[j].devStatus = 0 /\ Len(T[j].values) >= r.pos /\ T[j].values[r.pos] = r.val
+                 /\ \E i \in s..(j - 1) :                                              \* the command this response answers: the last one before it
+                      /\ T[i].ev = "h2d" /\ T[i].kind = "cmd" /\ T[i].tag = 7 /\ T[i].flags = 0 /\ T[i].params = <<Wd(r.prop), r.idx>>
+                      /\ \A k \in (i + 1)..(j - 1) : ~(T[k].ev = "h2d" /\ T[k].kind = "cmd")
+MirrorPerIndex == LET s == Since IN \A n \in 1..Len(E.regions) : Answered(s, E.regions[n])
 Succ == E.kind = "ret" /\ E.val \in {"ok", "data", "values"} /\ E.status = 0
 MaxReads == 3000
 Result ==
@@ -154,6 +165,9 @@ Result ==
   /\ (call.op = "load_image" /\ E.kind = "ret" /\ E.val = "ok" => E.devGotExact /\ E.devBytes = call.len)
   /\ (DevAborted /\ LinkIntact => /\ dev = "idle" /\ E.kind = "ret" /\ ~Succ               \* AbortReported: the exchange is completed (every frame acknowledged,
                                   /\ \E i \in Since..l : T[i].ev = "d2h" /\ T[i].kind = "resp" /\ T[i].final /\ E.status = T[i].devStatus)   \* the final response read) and the device's reason is the status of the call
+  /\ (call.op = "get_memory_list" /\ E.kind = "ret" /\ E.val = "values" =>
+              /\ MirrorPerIndex                                                      \* MirrorPerIndex: every word reported for a region is the device's answer for that index
+              /\ (~faulted /\ dev # "dead" => E.nreg = call.nreg))                   \*   and on a fault-free link no region of the device is missing, none invented
   /\ (strict => ~Succ)                                                              \* StrictFaults: NAK / abort / truncated / missing frame end the call in failure
   /\ Drained(Since)                                                                 \* Drained: nothing of this call's exchange is left for the next call
   /\ LET exp == IF call.via = "cli" THEN CliCmds(call.cli) ELSE Cmds(call.op, call.args, call.dl, call.db) IN   \* a blhost command line means its operation (MbootCli)                        \* AsRequested: the device saw exactly the commands the operation stands for,
